@@ -7,6 +7,7 @@ pub mod c04;
 pub mod c07;
 pub mod c09;
 pub mod c10;
+pub mod c11;
 pub mod c12;
 pub mod c14;
 pub mod c15;
@@ -34,6 +35,7 @@ pub fn run(what: &str, tier: &str, _rest: &[String]) -> i32 {
         "C19" => routing::run_c19(tier),
         "C09" => c09::run(tier),
         "C10" => c10::run(tier),
+        "C11" => c11::run(tier),
         "C12" => c12::run(tier),
         "C14" => c14::run(tier),
         "C15" => c15::run(tier),
